@@ -49,7 +49,10 @@ Resync(k) ==
   /\ ~ENABLED (DAct(r.act) /\ Match(r))
   /\ drift' = TRUE
   /\ phase' = r.post.phase /\ length' = r.post.length /\ errors' = r.post.errors /\ ops' = r.post.ops
-  /\ age' = r.post.age /\ started' = r.post.started
+  \* the age of the lifecycle is history-defined (time since it left NASCENT through start() or its first tick), like idle below: never re-read from the object
+  /\ started' = (IF r.act.op = "reset" THEN FALSE ELSE IF Returned(r) /\ phase = "nascent" /\ r.act.op \in {"start", "tick"} THEN TRUE ELSE started)
+  /\ age' = (IF r.act.op = "reset" THEN 0 ELSE IF Returned(r) /\ phase = "nascent" /\ r.act.op \in {"start", "tick"} THEN 0
+             ELSE IF r.act.op = "advance" /\ started THEN T!Min(age + r.act.n, T!Cap) ELSE age)
   /\ idle' = (IF ~Returned(r) THEN idle
               ELSE IF r.act.op \in {"heartbeat", "reset"} \/ (r.act.op = "tick" /\ phase \notin {"apoptotic", "terminated"})
                       \/ (r.act.op = "start" /\ phase = "nascent") THEN 0
